@@ -6,7 +6,7 @@ rows = []
 for f in sorted(glob.glob(os.path.join(ROOT, 'seeded', '*', 'meta.json'))):
     m = json.load(open(f))
     rows.append('| %s | %s | %s | %s | %s |' % (m['id'], m['change'], m['needs_to_manifest'], ', '.join(m['detection']['caught_by']),
-                                                m['detection']['note']))
+                                                m['detection']['note'] + (' OBSOLETE: ' + m['obsolete_after']['reason'] if m.get('obsolete_after') else '')))
 txt = """# Seeded changes
 
 Each directory holds `patch.diff` (applies to /repo HEAD), `demo.py` (exit 1 with the change, 0 without), the author's
